@@ -232,6 +232,217 @@ def gen_dictionary(rng, allow_float=True, overlap=False, shared=False, standard=
     return mdefs
 
 
+# ------------------------------------------------------------------ the shortest wire forms the grammar allows
+# A field on the wire is `tag` `=` `value` SOH: at least THREE bytes - a one-digit tag and an empty String / char value (`1=<SOH>`;
+# "empty strings" are named in the quantifier).  A group instance must hold its first field and nothing else, so an instance can be
+# three bytes too, and a message can END with any number of them (group assigned last in the body, nothing assigned in the trailer;
+# or an inner group closing the last instance of the outer one; or a group in the trailer).  The general generator practically never
+# gets there (tags are mostly 3-4 digits, values mostly non-empty, trailers mostly non-empty), so this family aims at it: small
+# dictionaries whose groups start with one-digit tags, messages whose instances hold as little as an instance may hold, many such
+# instances, and little or nothing behind the group.  All tags pairwise distinct: inside `wfDef` of Props/C13.lean.
+ONE_DIGIT_TAGS = [t for t in range(1, 10) if t not in fc.STD_TAGS]       # 8 / 9 are BeginString / BodyLength (standard classes)
+SHORT_FIRST_TYPES = ['string', 'string', 'string', 'char', 'char', 'int', 'bool']
+
+
+def one_digit_tag(rng, pool):
+    free = [t for t in ONE_DIGIT_TAGS if t not in pool.used]
+    if not free:
+        return pool.fresh()
+    t = rng.choice(free)
+    pool.used.add(t)
+    return t
+
+
+def two_digit_tag(rng, pool):
+    free = [t for t in range(11, 100) if t not in pool.used]
+    t = rng.choice(free)
+    pool.used.add(t)
+    return t
+
+
+def gen_group_short(rng, pool, depth, allow_float):
+    """a group whose first field has (mostly) a one-digit tag and a text type; the other entries mostly optional; nested to `depth`"""
+    tys = fc.TYPES if allow_float else [t for t in fc.TYPES if t != 'float']
+    c = rng.random()
+    first_tag = one_digit_tag(rng, pool) if c < 0.75 else two_digit_tag(rng, pool) if c < 0.9 else pool.fresh()
+    sub = [('f', first_tag, rng.choice(SHORT_FIRST_TYPES), rng.random() < 0.5)]
+    for _ in range(rng.choice([0, 0, 1, 1, 2, 3])):
+        if depth > 1 and rng.random() < 0.45:
+            sub.append(gen_group_short(rng, pool, depth - 1, allow_float))
+        else:
+            c = rng.random()
+            t = one_digit_tag(rng, pool) if c < 0.2 else two_digit_tag(rng, pool) if c < 0.5 else pool.fresh()
+            sub.append(('f', t, rng.choice(tys), rng.random() < 0.15))
+    c = rng.random()
+    count_tag = one_digit_tag(rng, pool) if c < 0.15 else two_digit_tag(rng, pool) if c < 0.5 else pool.fresh()
+    return ('g', count_tag, rng.random() < 0.2, sub)
+
+
+def gen_dictionary_short(rng, allow_float=True):
+    pool = fc.TagPool(rng)
+    tys = fc.TYPES if allow_float else [t for t in fc.TYPES if t != 'float']
+
+    def plain(p_req=0.3):
+        c = rng.random()
+        t = one_digit_tag(rng, pool) if c < 0.15 else two_digit_tag(rng, pool) if c < 0.5 else pool.fresh()
+        return ('f', t, rng.choice(tys), rng.random() < p_req)
+    hdr = [('f', 35, 'string', True)] + [plain() for _ in range(rng.choice([0, 0, 1]))]
+    c = rng.random()
+    if c < 0.4:
+        trl = []
+    elif c < 0.6:
+        trl = [('f', 10, 'string', rng.random() < 0.3)]                    # CheckSum, like any other tag (`10=nnn<SOH>`: 7 bytes)
+    elif c < 0.8:
+        trl = [plain(0.2)]
+    else:
+        trl = [plain(0.2) for _ in range(rng.choice([0, 1]))] + [gen_group_short(rng, pool, rng.choice([1, 1, 2]), allow_float)]
+    types = set()
+    while len(types) < rng.choice([1, 1, 2]):
+        types.add(''.join(rng.choice(TYPE_CHARS) for _ in range(rng.randint(1, 2))))
+    mdefs = []
+    for ty in sorted(types):
+        body = [plain() for _ in range(rng.choice([0, 0, 1, 2]))]
+        body += [gen_group_short(rng, pool, rng.choice([1, 1, 2, 2, 3]), allow_float) for _ in range(rng.choice([1, 1, 1, 2]))]
+        rng.shuffle(body)
+        mdefs.append({'name': fc.fresh_name(), 'type': ty, 'hdr': hdr, 'body': body, 'trl': trl})
+    return mdefs
+
+
+def short_prim(rng, ty, empty=None):
+    """a value of minimal width: the empty text (String / char), one character, a one-digit number"""
+    if ty in ('string', 'char'):
+        if empty is None:
+            empty = rng.random() < 0.65
+        return ('s', '' if empty else rng.choice(VALUE_CHARS if rng.random() < 0.3 else fc.PRINTABLE))
+    if ty == 'int':
+        return ('i', rng.randint(0, 9) if rng.random() < 0.8 else rng.choice([-1, 10, -9]))
+    return fc.gen_prim(rng, ty)
+
+
+INSTANCE_COUNTS = [1, 1, 1, 2, 2, 3, 4, 5, 8, 9, 10, 13, 21]
+
+
+def gen_group_value_short(rng, e, closes):
+    """instances of group entry `e`.  mode `min`: every instance holds its first field only (plus what the dictionary requires), values
+    of minimal width - all of them empty text most of the time - and there are many of them (one per three bytes of the wire: more
+    instances than any estimate of four or more bytes apiece allows); when the group `closes` its surroundings the last instance may
+    end with a nested group of the same kind.  mode `mixed`: the general generator's instances with short values here and there"""
+    sub = e[3]
+    first = sub[0]
+    nested = [x for x in sub[1:] if x[0] == 'g']
+    if rng.random() < 0.55:
+        n = rng.choice(INSTANCE_COUNTS)
+        all_empty = rng.random() < 0.7
+        insts = []
+        for j in range(n):
+            inst = [(first[1], short_prim(rng, first[2], True if all_empty else None))] if first[0] == 'f' else \
+                [(first[1], gen_group_value_short(rng, first, False))]
+            for x in sub[1:]:
+                if (x[3] if x[0] == 'f' else x[2]) and rng.random() < 0.8:        # `required` is the session's business, not the codec's
+                    inst.append((x[1], short_prim(rng, x[2]) if x[0] == 'f' else gen_group_value_short(rng, x, False)))
+            insts.append(inst)
+        if nested and closes and rng.random() < 0.5:
+            x = rng.choice(nested)
+            if x[1] not in [t for t, _ in insts[-1]]:
+                insts[-1].append((x[1], gen_group_value_short(rng, x, True)))
+        return ('grp', insts)
+    insts = []
+    n = rng.choice([0, 1, 1, 2, 3, 4])
+    for j in range(n):
+        inst = []
+        for i, x in enumerate(sub):
+            req = x[3] if x[0] == 'f' else x[2]
+            if i == 0 or req or rng.random() < 0.35:
+                if x[0] == 'f':
+                    inst.append((x[1], short_prim(rng, x[2]) if rng.random() < 0.6 else fc.gen_prim(rng, x[2])))
+                else:
+                    inst.append((x[1], gen_group_value_short(rng, x, closes and j == n - 1)))
+        if rng.random() < 0.5:
+            head, rest = inst[:1], inst[1:]
+            rng.shuffle(rest)
+            inst = head + rest if rng.random() < 0.5 else rest + head
+        insts.append(inst)
+    return ('grp', insts)
+
+
+def gen_seg_short(rng, entries, p_optional, group_last):
+    chosen = [e for e in entries if (e[3] if e[0] == 'f' else e[2]) or rng.random() < p_optional]
+    groups = [e for e in entries if e[0] == 'g']
+    if groups and not any(e[0] == 'g' for e in chosen) and rng.random() < 0.9:
+        chosen.append(rng.choice(groups))
+    rng.shuffle(chosen)
+    got = [e for e in chosen if e[0] == 'g']
+    if got and group_last:
+        g = rng.choice(got)
+        chosen.remove(g)
+        chosen.append(g)                          # a plain segment is written in assignment order: this group closes the segment
+    seg = []
+    for i, e in enumerate(chosen):
+        if e[0] == 'f':
+            seg.append((e[1], short_prim(rng, e[2]) if rng.random() < 0.4 else fc.gen_prim(rng, e[2])))
+        else:
+            seg.append((e[1], gen_group_value_short(rng, e, i == len(chosen) - 1)))
+    return seg
+
+
+def gen_assignments_short(rng, d):
+    rest = [e for e in d['hdr'] if e[1] != 35]
+    h = [(35, ('s', d['type']))] + gen_seg_short(rng, rest, 0.4, False)
+    if rng.random() < 0.2:
+        rng.shuffle(h)
+    b = gen_seg_short(rng, d['body'], 0.5, rng.random() < 0.75)
+    t = gen_seg_short(rng, d['trl'], 0.4, rng.random() < 0.75)
+    return {'hdr': h, 'body': b, 'trl': t}
+
+
+def wire_fields(entries, seg, dictionary_order, out):
+    """the fields of a segment in wire order as (length with SOH, number of instances announced or None)"""
+    order = [(e[1], dict(seg)[e[1]]) for e in entries if e[1] in dict(seg)] if dictionary_order else seg
+    for t, v in order:
+        if v[0] == 'grp':
+            out.append((len(str(t)) + 1 + len(str(len(v[1]))) + 1, len(v[1]), [len(i) for i in v[1]]))
+            for inst in v[1]:
+                wire_fields(fc.find_entry(entries, t)[3], inst, True, out)
+        else:
+            out.append((len(str(t)) + 1 + len(fc.ref_value_bytes(v)) + 1, None, None))
+    return out
+
+
+def density_classes(d, m):
+    """how tightly the instances of the message's groups are packed (for the input distribution): a group whose instances are all
+    3 bytes; a group that is the last thing on the wire; a group announcing more instances than a quarter of the bytes that follow it"""
+    out = set()
+    fields = []
+    for s in ('hdr', 'body', 'trl'):
+        wire_fields(d[s], m[s], False, fields)
+    total = sum(f[0] for f in fields)
+    off = 0
+    for k, (ln, n, sizes) in enumerate(fields):
+        off += ln
+        if not n:
+            continue
+        left = total - off
+        flat = all(x == 1 for x in sizes)          # instances of one field each: the next n wire fields are the instances
+        if flat and all(f[0] == 3 for f in fields[k + 1:k + 1 + n]):
+            out.add('all-instances-3-bytes')
+            if k + 1 + n == len(fields):
+                out.add('3-byte-instances-close-the-message')
+        if left < 4 * n:
+            out.add('fewer-than-4-bytes-per-announced-instance-left')
+        if left == 3 * n:
+            out.add('exactly-3-bytes-per-announced-instance-left')
+    if _group_is_last(d, m):
+        out.add('group-closes-the-message')
+    return out
+
+
+def _group_is_last(d, m):
+    for s in ('trl', 'body', 'hdr'):
+        if m[s]:
+            return m[s][-1][1][0] == 'grp' and bool(m[s][-1][1][1])
+    return False
+
+
 def upsert(seg, t, v):
     for i, (k, _) in enumerate(seg):
         if k == t:
@@ -724,6 +935,12 @@ def shrink_candidates(d, m):
         for path, seg in list(walk_segs(m[s], ())):
             for i, (t, v) in enumerate(seg):
                 if v[0] == 'grp':
+                    if len(v[1]) >= 4:               # long instance lists: halves first
+                        for keep in (slice(0, len(v[1]) // 2), slice(len(v[1]) // 2, None)):
+                            m2 = copy.deepcopy(m)
+                            seg2 = follow(m2[s], path)
+                            seg2[i] = (t, ('grp', seg2[i][1][1][keep]))
+                            yield d, m2
                     for j in range(len(v[1])):
                         m2 = copy.deepcopy(m)
                         seg2 = follow(m2[s], path)
@@ -914,6 +1131,23 @@ def gen_entry(rng, i, n_msg, n_mal, n_dec):
     return entry
 
 
+def gen_entry_short(rng, i, n_msg, n_dec):
+    """one dictionary of the `shortest wire forms` family with its messages (and mutated encodings for the decoder)"""
+    mdefs = gen_dictionary_short(rng, allow_float=(i % 3 != 2))
+    entry = {'mdefs': mdefs, 'wf': [], 'mal': [], 'dec': [], 'short': True}
+    seeds = []
+    for _ in range(n_msg):
+        d = rng.choice(mdefs)
+        a = gen_assignments_short(rng, d)
+        m = {s: built_seg(a[s]) for s in a}
+        entry['wf'].append((d, a, m))
+        seeds.append(fc.ref_encode(d, m))
+    types = [x['type'] for x in mdefs]
+    for _ in range(n_dec):
+        entry['dec'].append(mutate_bytes(rng, rng.choice(seeds), types))
+    return entry
+
+
 def execute_plan(ctx, rng, plan):
     # ---------------- model answers, one batch
     lines = []
@@ -973,6 +1207,8 @@ def execute_plan(ctx, rng, plan):
                 ctx.count('wf:reused-tags:' + ('in-domain' if dom else 'out-of-domain'))
                 if dom and counted_ok(d, m, hits) and hits:
                     ctx.count('wf:reused-tags:only-the-count-ends-a-group')
+            for cls_ in density_classes(d, m):
+                ctx.count(('wf:short-family:' if entry.get('short') else 'wf:density:') + cls_ + ('' if dom else ':out-of-domain'))
             if not dom:
                 ctx.count('wf:out-of-domain(segments not disjoint, an instance could take a field that follows its group, or no MsgType in the header)')
             got = impl_build(built, d, a, rng)
@@ -1095,6 +1331,11 @@ def run_chunk(ctx, p):
     common.use_repo()
     use_fix_strings()
     plan = [gen_entry(ctx.rng, p['first'] + i, p['n_msg'], p['n_mal'], p['n_dec']) for i in range(p['count'])]
+    # the `shortest wire forms` family draws from a generator of its own (seeded per chunk): the general family above is the same
+    # sequence of cases whether or not this one runs
+    import random
+    rng_s = random.Random(f'C13-short-{ctx.seed}-{p["first"]}')
+    plan += [gen_entry_short(rng_s, p['first'] + i, p['n_msg'], p['n_dec'] // 2) for i in range(p.get('n_short', 0))]
     execute_plan(ctx, ctx.rng, plan)
 
 
@@ -1118,7 +1359,14 @@ def run(ctx):
                        "controls, DEL, blanks at either end, `35=` inside values — in header, body, trailer and group instances; headers with "
                        "entries in front of MsgType, tags ending in 35, MsgType assigned at any position); distinct = distinct (dictionary, message) s-expression; plus out-of-domain "
                        'assignments (type errors, unknown keys, bool in int field, non-ASCII, SOH in text, instance without first field) '
-                       'and mutated byte strings for the decoder — those for model/implementation agreement only')
+                       'and mutated byte strings for the decoder — those for model/implementation agreement only; plus the family of the '
+                       'SHORTEST WIRE FORMS (per worker process 12 / 50 small dictionaries, generator seeded per chunk): groups whose first '
+                       'field has a one-digit tag (1-7) and type String / char (also int / bool), the other entries optional, nested to '
+                       'depth 3, count tags of 1-5 digits, trailer empty / CheckSum only / one field / a group; messages whose instances hold '
+                       'their first field only, values of minimal width (the empty text, one character, one digit), 1-21 instances, the group '
+                       'assigned last in its segment, nothing or little in the trailer, an inner group closing the last outer instance - '
+                       'so that a message ends in 3-byte instances `t=<SOH>` and announces more instances than a quarter of the bytes left '
+                       '(histogram wf:short-family:*)')
     # ---------------- plan all cases (pure data)
     plan = []      # per dictionary: {'mdefs', 'wf': [(d, assign, m)], 'mal': [(d, kind, assign)], 'dec': [(kind, bytes)]}
     for rep in load_corpus():
@@ -1140,7 +1388,8 @@ def run(ctx):
             ctx.notes.append(f'witness not available from the driver: {e!r}')
     execute_plan(ctx, rng, plan)                      # corpus + witness first (in this process)
     per = 60 if quick else 250                        # dictionaries per fresh worker process
-    payloads = [{'first': s0, 'count': min(per, n_dict - s0), 'n_msg': n_msg, 'n_mal': n_mal, 'n_dec': n_dec}
+    n_short = 12 if quick else 50                     # `shortest wire forms` dictionaries per worker process, on top of the general ones
+    payloads = [{'first': s0, 'count': min(per, n_dict - s0), 'n_msg': n_msg, 'n_mal': n_mal, 'n_dec': n_dec, 'n_short': n_short}
                 for s0 in range(0, n_dict, per)]
     fc.run_chunks(ctx, 'c13', payloads)
     if wit is not None:
